@@ -1,10 +1,11 @@
 #!/bin/bash
 # For every fixture patch: does it compile, does the suite still pass (informational), and is it reported by its property's check?
+# Fixtures are applied to scratch copies of /repo, 8 at a time.
 export GOFLAGS=-mod=mod GOPROXY=off GOSUMDB=off GOTOOLCHAIN=local; unset GOWORK
-for fx in /verif/fixtures/C*; do
-  name=$(basename $fx); id=${name%%-*}
+if [ "$1" = "--one" ]; then
+  fx=$2; name=$(basename $fx); id=${name%%-*}
   scratch=$(mktemp -d /tmp/mut.XXXXXX); cp -r /repo/. $scratch/; rm -rf $scratch/.git
-  (cd $scratch && patch -p1 -s < $fx/patch.diff) || { echo "$name: PATCH FAILED"; rm -rf $scratch; continue; }
+  (cd $scratch && patch -p1 -s < $fx/patch.diff) || { echo "$name: PATCH FAILED"; rm -rf $scratch; exit 0; }
   comp=ok; (cd $scratch && go build ./... 2>/dev/null) || comp=NOCOMPILE
   tests=$(/verif/tools/repotest.sh $scratch 2>/dev/null | tail -1)
   vd=$(mktemp -d /tmp/mutv.XXXXXX); cp /verif/known_findings.json $vd/
@@ -12,4 +13,6 @@ for fx in /verif/fixtures/C*; do
   rules=$(echo "$out" | grep -oE "rule=[A-Z0-9-]+" | sort -u | sed 's/rule=//' | tr '\n' ',')
   echo "$name compile=$comp tests[$tests] rc=$rc rules=$rules"
   rm -rf $scratch $vd
-done
+  exit 0
+fi
+ls -d /verif/fixtures/C* | xargs -P 8 -I{} /verif/tools/fixturecheck.sh --one {} | sort
